@@ -187,12 +187,18 @@ def total(ctx: Any) -> List[Ob]:
     parse_nodes = [n for n in cfg.nodes if any(call_name(c) == '_initial_parse' for c in n.calls())]
     if not parse_nodes:
         raise AnalysisError('anchor vanished: _initial_parse call in the constructor')
+    # definitely assigned: no path from the entry reaches the parse without passing a store of the slot (a store in each arm
+    # of an `if` counts: `self.now = now if now else clock()` and its `if` / `else` spelling are the same)
     assigned_before: Set[str] = set()
+    storers: Dict[str, List[Any]] = {}
     for n in cfg.nodes:
-        if n.kind == 'stmt' and all(cfg.dominates(n, p) for p in parse_nodes):
+        if n.kind == 'stmt':
             for t, st in attr_stores(n.ast):
                 if self_attr(t, me):
-                    assigned_before.add(t.attr)
+                    storers.setdefault(t.attr, []).append(n)
+    for a_, ns_ in storers.items():
+        if cfg.path_avoiding(cfg.entry, lambda n: n in parse_nodes, lambda n, ns_=ns_: n in ns_) is None:
+            assigned_before.add(a_)
     read: Dict[str, str] = {}
     slots = set(inc.all_slots())
     for f in reg:
